@@ -42,6 +42,13 @@ NOT_APPLICABLE = {
 }
 
 
+def catalogue(pid):
+    """run only the mutation catalogue of one property (scratch copies; nothing under evidence/ or replay/ is touched)"""
+    from .driver import run_catalogue
+    for r in run_catalogue(pid) or []:
+        print('%-45s %-10s %s %s' % (r['mutant'], r['status'], ' '.join(r.get('by', [])[:2]), ' '.join(r.get('detail', []))[:160]))
+
+
 def manifest():
     from .props import PROPS
     checks = []
